@@ -8,20 +8,23 @@ import (
 	"bytes"
 	"fmt"
 
+	"github.com/tink-crypto/tink-go/v2/aead"
 	"github.com/tink-crypto/tink-go/v2/aead/aesctrhmac"
 	"github.com/tink-crypto/tink-go/v2/aead/aesgcm"
 	"github.com/tink-crypto/tink-go/v2/aead/aesgcmsiv"
 	"github.com/tink-crypto/tink-go/v2/aead/chacha20poly1305"
 	aeadsubtle "github.com/tink-crypto/tink-go/v2/aead/subtle"
 	"github.com/tink-crypto/tink-go/v2/aead/xchacha20poly1305"
+	"github.com/tink-crypto/tink-go/v2/internal/protoserialization"
 	"github.com/tink-crypto/tink-go/v2/key"
 	"github.com/tink-crypto/tink-go/v2/keyset"
 	macsubtle "github.com/tink-crypto/tink-go/v2/mac/subtle"
+	tinkpb "github.com/tink-crypto/tink-go/v2/proto/tink_go_proto"
 	"github.com/tink-crypto/tink-go/v2/signature"
 	"github.com/tink-crypto/tink-go/v2/signature/ecdsa"
 	"github.com/tink-crypto/tink-go/v2/signature/mldsa"
-	"github.com/tink-crypto/tink-go/v2/signprehash"
 	sigsubtle "github.com/tink-crypto/tink-go/v2/signature/subtle"
+	"github.com/tink-crypto/tink-go/v2/signprehash"
 	saesctrhmac "github.com/tink-crypto/tink-go/v2/streamingaead/aesctrhmac"
 	"github.com/tink-crypto/tink-go/v2/streamingaead/aesgcmhkdf"
 	streamsubtle "github.com/tink-crypto/tink-go/v2/streamingaead/subtle"
@@ -34,6 +37,43 @@ type prim struct {
 	prefixLen int
 	produce   func(msg, aad []byte) ([]byte, error)
 	verify    func(out, msg []byte) error // optional: the ordinary accepting primitive
+	// envelope only: the key-encryption AEAD and the DEK's IV length
+	kek   tink.AEAD
+	dekIV int
+}
+
+// DEK templates aead.NewKMSEnvelopeAEAD2 accepts.
+var dekTemplates = []struct {
+	name string
+	f    func() *tinkpb.KeyTemplate
+}{
+	{"AES128GCM", aead.AES128GCMKeyTemplate},
+	{"AES256GCM", aead.AES256GCMKeyTemplate},
+	{"XCHACHA20POLY1305", aead.XChaCha20Poly1305KeyTemplate},
+	{"CHACHA20POLY1305", aead.ChaCha20Poly1305KeyTemplate},
+	{"AES128CTRHMACSHA256", aead.AES128CTRHMACSHA256KeyTemplate},
+	{"AES256GCMSIV", aead.AES256GCMSIVKeyTemplate},
+}
+
+// envelopePrim wraps the key's factory AEAD as the key-encryption AEAD of a
+// KMS envelope AEAD: every Encrypt generates a fresh DEK, encrypts it under
+// the KEK (KEK IV) and encrypts the data under the DEK (DEK IV).
+func envelopePrim(k key.Key, h *keyset.Handle, tpl int) (*prim, error) {
+	kek, err := aead.New(h)
+	if err != nil {
+		return nil, err
+	}
+	kt := dekTemplates[tpl].f()
+	par, err := protoserialization.ParseParameters(kt)
+	if err != nil {
+		return nil, err
+	}
+	iv, ok := aeadIVLen(par)
+	if !ok {
+		return nil, fmt.Errorf("no IV layout for DEK template %s", dekTemplates[tpl].name)
+	}
+	env := aead.NewKMSEnvelopeAEAD2(kt, kek)
+	return &prim{kind: "envelope", prefixLen: outputPrefixLen(k), produce: env.Encrypt, kek: kek, dekIV: iv}, nil
 }
 
 func outputPrefixLen(k key.Key) int {
@@ -172,6 +212,12 @@ func prehashPrim(k key.Key, h *keyset.Handle) (p *prim, ok bool, err error) {
 	if err != nil {
 		return nil, true, err
 	}
+	var prefix []byte
+	if pubKey, perr := pk.PublicKey(); perr == nil {
+		if op, isOP := pubKey.(interface{ OutputPrefix() []byte }); isOP {
+			prefix = op.OutputPrefix()
+		}
+	}
 	return &prim{kind: "prehash", prefixLen: outputPrefixLen(k),
 		produce: func(msg, _ []byte) ([]byte, error) {
 			d, err := ph.ComputePrehash(msg)
@@ -180,7 +226,18 @@ func prehashPrim(k key.Key, h *keyset.Handle) (p *prim, ok bool, err error) {
 			}
 			return sg.SignPrehash(d)
 		},
-		verify: func(out, msg []byte) error { return vf.Verify(out, msg) }}, true, nil
+		// The prehash signer returns the bare ML-DSA signature; for VariantTink the
+		// ordinary verifier wants the key's output prefix in front (not a C20 matter:
+		// either form verifying shows the output is a real signature of msg).
+		verify: func(out, msg []byte) error {
+			err := vf.Verify(out, msg)
+			if err != nil && len(prefix) > 0 {
+				if vf.Verify(append(append([]byte(nil), prefix...), out...), msg) == nil {
+					return nil
+				}
+			}
+			return err
+		}}, true, nil
 }
 
 func describe(err error) string {
